@@ -367,6 +367,59 @@ class Ctx:
             self.obligation('coqchk BF.Props.%s' % self.pid, okc, ' '.join(out.split())[-400:])
         return ok_all
 
+    # ---- (T) over the reals: a Props file whose theorems rest on the standard library's real-number axioms ----
+    REAL_AXIOMS = ('ClassicalDedekindReals.sig_forall_dec', 'ClassicalDedekindReals.sig_not_dec',
+                   'FunctionalExtensionality.functional_extensionality_dep')
+
+    def check_theorems_reals(self, name):
+        """build Props/<name>.vo, re-compile Props/<name>.v in the run directory and read every Print Assumptions: each
+        theorem may depend on the three axioms the standard library declares for its real numbers and on nothing else."""
+        with open(os.path.join(BUILD, '.lock'), 'w') as lk:
+            fcntl.flock(lk, fcntl.LOCK_EX)
+            rc, out = _run(['make', '-j16', 'theories/Props/%s.vo' % name], cwd=COQ, timeout=3000)
+            fcntl.flock(lk, fcntl.LOCK_UN)
+        src = os.path.join(THEORIES, 'Props', name + '.v')
+        names = theorem_names(src)
+        if rc != 0:
+            m = _ERR_RE.search(out)
+            where = ('%s line %s: %s' % (m.group(1), m.group(2), ' '.join(m.group(3).split())[:300])) if m else out[-600:]
+            for nm in names:
+                self.obligation('BF.Props.%s.%s' % (name, nm), False, 'does not build: ' + where)
+            return False
+        dst = os.path.join(self.rundir, 'Chk_%s.v' % name)
+        shutil.copy(src, dst)
+        rc, out = coqc(dst, self.rundir)
+        if rc != 0:
+            m = _ERR_RE.search(out)
+            where = ('line %s: %s' % (m.group(2), ' '.join(m.group(3).split())[:300])) if m else out[-600:]
+            for nm in names:
+                self.obligation('BF.Props.%s.%s' % (name, nm), False, 'Props file does not compile: ' + where)
+            return False
+        blocks, cur = [], None
+        for ln in out.splitlines():
+            if ln.startswith('Closed under the global context'):
+                blocks.append([])
+                cur = None
+            elif ln.startswith('Axioms:'):
+                cur = []
+                blocks.append(cur)
+            elif cur is not None and ln and not ln[0].isspace():
+                cur.append(re.split(r'[\s:]', ln, 1)[0])
+        if len(blocks) != len(names):
+            self.obligation('BF.Props.%s:print-assumptions-count' % name, False,
+                            '%d theorems but %d Print Assumptions' % (len(names), len(blocks)))
+            return False
+        ok_all = True
+        for nm, ax in zip(names, blocks):
+            bad = [a for a in ax if a not in self.REAL_AXIOMS]
+            ok_all &= not bad
+            self.obligation('BF.Props.%s.%s' % (name, nm), not bad,
+                            ('Axioms (standard library reals only): ' + ', '.join(ax)) if ax else 'Closed under the global context')
+            for a in ax:
+                if a not in self.trusted:
+                    self.trusted.append(a)
+        return ok_all
+
     # ---- thorough tier: the same check under other execution modes of the numba kernels ---------
     def run_modes(self, modes=('NUMBA_DISABLE_JIT=1', 'NUMBA_BOUNDSCHECK=1')):
         """thorough tier only: re-run this property's quick check in a subprocess with the kernels interpreted
